@@ -261,6 +261,9 @@ def run(chk):
                 lines.append('file\t%s %d %s %d %d %d' % (kind, rng.randint(0, 7), path,
                                                          -1 if rng.random() < 0.7 else rng.randint(0, size),
                                                          rng.choice([1, 1, 2, 3, 5, 10, 30]), rng.randint(1, 10 ** 9)))
+    # minimized failures of earlier runs (thorough tier): a mutated 4hhh_frag.pdb whose SSBOND partners lie more than 2^31
+    # cells apart (the periodic shift overflowed an int)
+    lines.append('file\tpdb 3 %s/tests/4hhh_frag.pdb -1 10 142536293' % vlib.REPO)
     lines += linecut_cases(rng, quick)
     lines += linedel_cases(rng, quick)
     lines += json_cases(rng, 3000 if quick else 100000)
